@@ -50,6 +50,26 @@ def run_scenario(sc):
             os.chdir(cwd)
             shutil.rmtree(wd, ignore_errors=True)
         sc = dict(sc, cases=[])
+    feed_frame = None
+    if sc.get("shared_feed_frame"):
+        # a caller that keeps ONE live-results DataFrame: an earlier call for the other kind of estimand (margin <-> vote counts) was given
+        # this very object, then the call that is compared
+        import copy
+
+        final_ = sc["cases"][-1]
+        feed_frame = run_impl.frames(final_)[1]
+        warm = copy.deepcopy(final_)
+        wp = warm["params"]
+        if wp["pi_method"] == "bootstrap":
+            wp.update({"pi_method": "nonparametric", "estimands": ["turnout"], "features": [], "fixed_effects": {}, "model_parameters": {}})
+        else:
+            wp.update({"pi_method": "bootstrap", "estimands": ["margin"], "features": ["baseline_normalized_margin"], "fixed_effects": {},
+                       "model_parameters": {"B": 10, "seed": 1}})
+            if "postal_code" not in wp["aggregates"]:
+                wp["aggregates"] = list(wp["aggregates"]) + ["postal_code"]
+        for k_ in ("lhs_called_contests", "rhs_called_contests", "stop_model_call"):
+            wp.pop(k_, None)
+        run_impl.run_case(warm, client_obj=client.ModelClient(), feed_frame=feed_frame)
     for k, case in enumerate(sc["cases"]):
         if sc.get("perturb_global_rng"):
             np.random.seed(1000 + 17 * k + sc.get("rng_salt", 0))
@@ -57,7 +77,7 @@ def run_scenario(sc):
 
             _r.seed(5 + k + sc.get("rng_salt", 0))
         obj = mc if mc is not None else client.ModelClient()
-        r = run_impl.run_case(case, client_obj=obj, want_client=True, base_frame=frame)
+        r = run_impl.run_case(case, client_obj=obj, want_client=True, base_frame=frame, feed_frame=feed_frame)
         last = r
     res = {"ok": last["ok"], "exc": last["exc"]}
     if last["ok"]:
